@@ -200,7 +200,7 @@ Proof.
         -- rewrite nth_error_app2 in He; auto. destruct (e - length (entries st)); simpl in He.
            ++ inversion He; subst. unfold entry_ok. simpl. discriminate.
            ++ destruct n; discriminate.
-      * unfold thread_ok. simpl. eexists. split; [rewrite nth_error_app2, Nat.sub_diag; auto|]. simpl. split; reflexivity.
+      * unfold thread_ok. simpl. eexists. split; [rewrite nth_error_app2 by lia; rewrite Nat.sub_diag; reflexivity|]. simpl. split; reflexivity.
   - (* PWait *)
     destruct Tt as (en & Hen & Hc & Hk). rewrite Hen in H.
     destruct (estat en) eqn:Hs; [discriminate| |]; inversion H; subst st'; clear H;
@@ -227,7 +227,7 @@ Proof.
       apply inv_coh_thread with (th := th); auto.
       * unfold recover_entries. eapply ents_le_trans; [|apply ents_le_upd; intros; split; reflexivity].
         destruct (find_entry (tcache th) (tkey th) (entries st)); [|apply ents_le_refl].
-        destruct (v_recover_own repaired && negb (Nat.eqb n i)); [apply ents_le_refl|apply ents_le_upd; intros; split; reflexivity].
+        match goal with |- context [if ?b then _ else _] => destruct b end; [apply ents_le_refl|apply ents_le_upd; intros; split; reflexivity].
       * intros e en' He. unfold recover_entries in He. rewrite nth_error_upd in He.
         assert (Hx : forall es0, (es0 = entries st \/ exists j, es0 = upd j detach (entries st)) ->
                  forall en0, nth_error es0 e = Some en0 -> entry_ok (threads st) en0).
@@ -239,15 +239,14 @@ Proof.
         -- match type of He with option_map _ ?o = _ => destruct o eqn:E0; [|discriminate] end.
            simpl in He. inversion He; subst. unfold entry_ok. simpl. discriminate.
         -- apply Hx; auto. destruct (find_entry (tcache th) (tkey th) (entries st)); auto.
-           destruct (v_recover_own repaired && negb (Nat.eqb n i)); eauto.
-      * unfold thread_ok. simpl. auto.
+           match goal with |- context [if ?b then _ else _] => destruct b end; eauto.
     + inversion H; subst st'. clear H.
       match goal with |- inv_coh (set_thr (set_entries st ?es) t ?p) =>
         replace (set_thr (set_entries st es) t p) with (set_thr (set_gens (set_entries st es) (gens st)) t p) by (destruct st; reflexivity) end.
       apply inv_coh_thread with (th := th); auto.
       * unfold recover_entries. eapply ents_le_trans; [|apply ents_le_upd; intros; split; reflexivity].
         destruct (find_entry (tcache th) (tkey th) (entries st)); [|apply ents_le_refl].
-        destruct (v_recover_own repaired && negb (Nat.eqb n i)); [apply ents_le_refl|apply ents_le_upd; intros; split; reflexivity].
+        match goal with |- context [if ?b then _ else _] => destruct b end; [apply ents_le_refl|apply ents_le_upd; intros; split; reflexivity].
       * intros e en' He. unfold recover_entries in He. rewrite nth_error_upd in He.
         assert (Hx : forall es0, (es0 = entries st \/ exists j, es0 = upd j detach (entries st)) ->
                  forall en0, nth_error es0 e = Some en0 -> entry_ok (threads st) en0).
@@ -259,11 +258,77 @@ Proof.
         -- match type of He with option_map _ ?o = _ => destruct o eqn:E0; [|discriminate] end.
            simpl in He. inversion He; subst. unfold entry_ok. simpl. discriminate.
         -- apply Hx; auto. destruct (find_entry (tcache th) (tkey th) (entries st)); auto.
-           destruct (v_recover_own repaired && negb (Nat.eqb n i)); eauto.
-      * unfold thread_ok. simpl. auto.
+           match goal with |- context [if ?b then _ else _] => destruct b end; eauto.
   - (* PAdd *)
     inversion H; subst st'. clear H. destruct Tt as (s0 & Hout).
     replace (set_gens st (gadd g s (gens st))) with (set_gens (set_entries st (entries st)) (gadd g s (gens st))) by (destruct st; reflexivity).
     apply inv_coh_thread with (th := th); auto using ents_le_refl.
     unfold thread_ok. simpl. exists t, th, s0. auto.
+Qed.
+
+Lemma step_coh st l st' : step st l = Some st' -> inv_coh st -> inv_coh st'.
+Proof.
+  intros H I. destruct l; simpl in H.
+  - (* Spawn *) inversion H; subst st'. clear H. destruct I as [T E]. split; simpl.
+    + intros t th Hth. destruct (Nat.lt_ge_cases t (length (threads st))).
+      * rewrite nth_error_app1 in Hth; auto.
+        eapply thread_ok_mono; [apply ents_le_refl|apply ths_le_app|]. eapply T; eauto.
+      * rewrite nth_error_app2 in Hth; auto. destruct (t - length (threads st)); simpl in Hth.
+        -- inversion Hth; subst. unfold thread_ok. simpl. auto.
+        -- destruct n; discriminate.
+    + intros e en He V. eapply produced_mono; [apply ths_le_app|]. eapply E; eauto.
+  - eapply step_thread_coh; eauto.
+  - inversion H; subst. apply (inv_coh_maint st); auto using ents_le_refl. apply back_same; auto.
+  - destruct (Nat.ltb c (length (caches st))); [|discriminate]. inversion H; subst.
+    apply (inv_coh_maint st); auto.
+    + simpl. apply ents_le_map. intros en. destruct (in_cache c en); auto.
+    + simpl. apply back_map with (f := fun e => if in_cache c e then detach e else e); auto.
+      intros en. destruct (in_cache c en); auto.
+  - inversion H; subst. unfold do_rotate. destruct (_ || _); apply (inv_coh_maint st); auto using ents_le_refl; apply back_same; auto.
+  - inversion H; subst. unfold clean_begin.
+    destruct (limit st =? 0)%Z; [apply (inv_coh_maint st); auto using ents_le_refl; apply back_same; auto|].
+    destruct (acct st <=? limit st)%Z; [apply (inv_coh_maint st); auto using ents_le_refl; apply back_same; auto|].
+    destruct (mark_stale_entries (Z.max (acct st / 20) (acct st - limit st)) st) as [He Ht].
+    destruct (mark_stale _ st) as [st1 n]. simpl in He, Ht.
+    apply (inv_coh_maint st); simpl; auto.
+    + rewrite He. apply ents_le_refl.
+    + apply back_same; auto.
+  - inversion H; subst. apply (inv_coh_maint st); auto.
+    + simpl. apply ents_le_map. intros en. destruct (stale_in c (gens st) en); auto.
+    + simpl. apply back_map with (f := fun e => if stale_in c (gens st) e then delete_stale e else e); auto.
+      intros en. destruct (stale_in c (gens st) en); auto.
+  - inversion H; subst. apply (inv_coh_maint st); auto using ents_le_refl. apply back_same; auto.
+  - inversion H; subst. unfold rel_collect. destruct (released_idx _ _ _); apply (inv_coh_maint st); auto using ents_le_refl; apply back_same; auto.
+  - unfold rel_remove in H. destruct (pendrel st); [|discriminate]. inversion H; subst.
+    apply (inv_coh_maint st); auto using ents_le_refl. apply back_same; auto.
+Qed.
+
+Lemma init_coh lim mg es : inv_coh (init lim mg es).
+Proof. split; simpl; intros ? ? H; destruct t || destruct e; discriminate. Qed.
+
+Lemma run_coh : forall ls st st', run st ls = Some st' -> inv_coh st -> inv_coh st'.
+Proof.
+  induction ls; intros st st' H I; unfold run in H; simpl in H.
+  - inversion H; subst; auto.
+  - destruct (step_v repaired st a) eqn:E; [|discriminate]. eapply IHls; eauto. eapply step_coh; eauto.
+Qed.
+
+(* what a finished lookup returned *)
+Definition returned_ok (st : state) (th : thread) : Prop :=
+  match tpc th with
+  | PDone (RVal v) => exists t' th' s, nth_error (threads st) t' = Some th' /\
+                        tcache th' = tcache th /\ tkey th' = tkey th /\ tout th' = OVal v s
+  | PDone RErr => tout th = OErr
+  | PDone RPanic => tout th = OPanic
+  | PAdd _ _ v => exists s, tout th = OVal v s   (* a creator returns its own loader's value *)
+  | _ => True
+  end.
+
+Theorem get_coherent lim mg es ls st :
+  run (init lim mg es) ls = Some st ->
+  forall t th, nth_error (threads st) t = Some th -> returned_ok st th.
+Proof.
+  intros H t th Hth. pose proof (run_coh ls _ _ H (init_coh lim mg es)) as [T _].
+  specialize (T t th Hth). unfold thread_ok in T. unfold returned_ok.
+  destruct (tpc th) as [| | | | [v| |]]; auto.
 Qed.
